@@ -480,11 +480,13 @@ def parseOne (raising : Bool) (p : PSt) (s : Spec) : Except Err PSt :=
   else
     ins ⟨p.next, s.kind, s.pre, s.uri, s.enc, s.used, false, none, []⟩ (p.next + 1) p.nd true
 
+/-- the statements of a text, white space after each: the `S` callback raises the level to at least 1
+(`max(1, expected or 0)`, `:171-174`) — this matters only after a first statement that was ignored at level 0 -/
 def parseTop (raising : Bool) : PSt → List Spec → Except Err PSt
   | p, [] => .ok p
   | p, s :: ss => match parseOne raising p s with
     | .error e => .error e
-    | .ok p' => parseTop raising p' ss
+    | .ok p' => parseTop raising { p' with level := max 1 p'.level } ss
 
 /-! ## `insertRule` / `add` -/
 
